@@ -622,9 +622,10 @@ def run_property(prop, modname, tier, seed, meta, jobs=None, budget_s=None):
         # after the last round of harness changes: the thorough tier then runs the quick tier's cases with
         # the second solver on every obligation (stated in the evidence)
         meta = dict(meta, bounds=list(meta.get("bounds", [])) +
-                    ["thorough tier = the quick tier's cases with every obligation re-checked by the second "
-                     "solver (deeper case list not re-validated after the last harness changes)"])
-    opts = {"crossval": 1.0, "second": 1.0 if tier == "thorough" else 0.02}
+                    ["thorough tier = the quick tier's cases with %d %% of the obligations re-checked by the second "
+                     "solver (deeper case list not re-validated after the last harness changes)"
+                     % round(100 * float(getattr(mod, "THOROUGH_SECOND", 1.0)))])
+    opts = {"crossval": 1.0, "second": float(getattr(mod, "THOROUGH_SECOND", 1.0)) if tier == "thorough" else 0.02}
     if "VERIF_SECOND" in os.environ:
         opts["second"] = float(os.environ["VERIF_SECOND"])
     if "VERIF_CROSSVAL" in os.environ:
